@@ -230,18 +230,18 @@ func (p *printer) expr(e *E, sp string) {
 		p.expr(e.A[1], "")
 		p.tok("]", "punct", "", "")
 	case "call":
-		p.tok(e.S, "word", sp, "")
+		p.tok(e.S, "word", sp, "Func") // a call is anchored at the function's name
 		p.args(e.A)
 	case "parent":
-		p.tok("parent", "word", sp, "")
+		p.tok("parent", "word", sp, "Func")
 		p.args(nil)
 	case "blockfn":
-		p.tok("block", "word", sp, "")
+		p.tok("block", "word", sp, "Func")
 		p.args(e.A)
 	case "filter":
 		p.operand(e.A[0], sp)
 		p.tok("|", "punct", "", "")
-		p.tok(e.S, "word", "", "")
+		p.tok(e.S, "word", "", "FilterX") // a filter application is anchored at the filter's name, with or without arguments
 		if len(e.A) > 1 {
 			p.args(e.A[1:])
 		}
@@ -304,7 +304,7 @@ func (p *printer) expr(e *E, sp string) {
 			p.tok(".", "punct", "", "")
 			p.tok(e.S, "word", "", "String")
 		default: // from-import: local name U
-			p.tok(e.U, "word", sp, "")
+			p.tok(e.U, "word", sp, "Func")
 		}
 		p.args(e.A)
 	default:
